@@ -16,7 +16,10 @@ EXTENDS Poly
 ListTruth(L, R, nameSeq, hs) ==
   IF Len(hs) # Len(R) THEN "malformed"
   ELSE IF \E j \in DOMAIN R : hs[j].kind = "witness" /\ WitnessOK(L, nameSeq, R[j], hs[j]) THEN "false"
-  ELSE IF \A j \in DOMAIN R : hs[j].kind = "cert" /\ NoBox(L, hs[j]) /\ FarkasExact(L, nameSeq, R[j], hs[j]) THEN "true"
+  ELSE IF \A j \in DOMAIN R : \/ (hs[j].kind = "cert" /\ NoBox(L, hs[j]) /\ FarkasExact(L, nameSeq, R[j], hs[j]))
+                              \/ (hs[j].kind = "infeasible" /\ NoBox(L, hs[j]) /\ InfeasOK(L, nameSeq, hs[j]))    \* nothing satisfies L: it refines any row,
+                                                                                                                 \* also one over variables L never mentions
+       THEN "true"
   ELSE "open"
 And3(x, y) == IF x = "malformed" \/ y = "malformed" THEN "malformed"
               ELSE IF x = "false" \/ y = "false" THEN "false"
